@@ -314,3 +314,370 @@ func (e *Engine) parserDeclaresResult() *FuncResult {
 	res.Obligs = ctx.obligs
 	return res
 }
+
+// ---- every reference a parser constructs names a declared object (or another package) ----------------
+//
+// Sinks are the calls ast.NewRef(pkg, name, ...) in the jsonschema and simplecue front ends. For each, a
+// forward MUST analysis over the CFG of the enclosing function decides that on every path to the sink
+//   D(name): name was handed to the declaring function (declareDefinition / declareObject), or the true
+//            edge of `Objects.Has(name)` was taken, or
+//   F(pkg):  pkg was compared with another string and the "different" edge was taken (the reference goes to
+//            another package: outside the claim).
+// A function that is only ever called through the generator's externalReferenceFunc field may rely on the
+// pair (its package parameter, its name parameter) satisfying D ∨ F at entry - every dynamic call through
+// that field is then a sink of its own. Values are identified as SSA values: a name rebuilt by any function
+// between the declaration and the reference is a different value and fails.
+
+var c05RefParsers = []struct {
+	pkg     string
+	declare map[string]bool
+	dynamic string // name of the func-typed field through which the external-reference helpers are called
+}{
+	{"jsonschema", map[string]bool{"jsonschema.(*generator).declareDefinition": true}, ""},
+	{"simplecue", map[string]bool{"simplecue.(*generator).declareObject": true}, "externalReferenceFunc"},
+}
+
+func isHasCall(v ssa.Value, name ssa.Value) bool {
+	c, ok := v.(*ssa.Call)
+	if !ok {
+		return false
+	}
+	sc := c.Call.StaticCallee()
+	if sc == nil || !strings.HasSuffix(funcKey(sc), ").Has") || len(c.Call.Args) != 2 {
+		return false
+	}
+	return c.Call.Args[1] == name
+}
+
+// edgeGen: does taking the edge from b to its idx-th successor establish D(name) or F(pkg)?
+func edgeGen(b *ssa.BasicBlock, idx int, pkg, name ssa.Value) bool {
+	if len(b.Instrs) == 0 {
+		return false
+	}
+	iff, ok := b.Instrs[len(b.Instrs)-1].(*ssa.If)
+	if !ok {
+		return false
+	}
+	cond := iff.Cond
+	neg := false
+	for {
+		u, isNot := cond.(*ssa.UnOp)
+		if !isNot || u.Op != token.NOT {
+			break
+		}
+		cond, neg = u.X, !neg
+	}
+	takenTrue := (idx == 0) != neg
+	if isHasCall(cond, name) {
+		return takenTrue
+	}
+	if bo, isBin := cond.(*ssa.BinOp); isBin && (bo.X == pkg || bo.Y == pkg) {
+		if _, isConstPkg := pkg.(*ssa.Const); isConstPkg {
+			return false
+		}
+		if bo.Op == token.EQL {
+			return !takenTrue
+		}
+		if bo.Op == token.NEQ {
+			return takenTrue
+		}
+	}
+	return false
+}
+
+func (e *Engine) sinkHolds(fn *ssa.Function, sink ssa.Instruction, pkg, name ssa.Value, declare map[string]bool, entryOK bool) bool {
+	declaresBefore := func(b *ssa.BasicBlock, upto ssa.Instruction) bool {
+		for _, in := range b.Instrs {
+			if in == upto {
+				return false
+			}
+			if c, ok := in.(*ssa.Call); ok {
+				if sc := c.Call.StaticCallee(); sc != nil && declare[funcKey(sc)] && len(c.Call.Args) >= 2 && c.Call.Args[1] == name {
+					return true
+				}
+				if addsObjectNamed(c, name) {
+					return true
+				}
+			}
+		}
+		return false
+	}
+	if phi, isPhi := name.(*ssa.Phi); isPhi && !entryOK {
+		// a name chosen among several: each choice is declared on its own edge, before the choice is made
+		if !(phi.Block() == sink.Block() || phi.Block().Dominates(sink.Block())) {
+			return false
+		}
+		for i, ed := range phi.Edges {
+			pred := phi.Block().Preds[i]
+			if len(pred.Instrs) == 0 || !e.sinkHolds(fn, pred.Instrs[len(pred.Instrs)-1], pkg, ed, declare, false) {
+				return false
+			}
+		}
+		return true
+	}
+	in := map[*ssa.BasicBlock]bool{}
+	out := map[*ssa.BasicBlock]bool{}
+	for _, b := range fn.Blocks {
+		in[b], out[b] = true, true
+	}
+	entry := fn.Blocks[0]
+	for changed := true; changed; {
+		changed = false
+		for _, b := range fn.Blocks {
+			v := true
+			if b == entry {
+				v = entryOK
+			} else {
+				for _, p := range b.Preds {
+					for i, s := range p.Succs {
+						if s == b && !(out[p] || edgeGen(p, i, pkg, name)) {
+							v = false
+						}
+					}
+				}
+			}
+			o := v || declaresBefore(b, nil)
+			if v != in[b] || o != out[b] {
+				in[b], out[b], changed = v, o, true
+			}
+		}
+	}
+	return in[sink.Block()] || declaresBefore(sink.Block(), sink)
+}
+
+func (e *Engine) parserRefsResult() *FuncResult {
+	ctx := newCtx(e, e.anyFunction())
+	ctx.fnKey = "c05-parsers-references"
+	res := &FuncResult{Key: "c05-parsers-references", Ctx: ctx}
+	for _, ps := range c05RefParsers {
+		var keys []string
+		for k, fn := range e.fnByKey {
+			if strings.HasPrefix(k, ps.pkg+".") && len(fn.Blocks) > 0 {
+				keys = append(keys, k)
+			}
+		}
+		sort.Strings(keys)
+		// functions used as values (only reachable through a func-typed field) and never called statically
+		calledStatically := map[string]bool{}
+		usedAsValue := map[string]bool{}
+		for _, k := range keys {
+			for _, b := range e.fnByKey[k].Blocks {
+				for _, in := range b.Instrs {
+					if c, ok := in.(*ssa.Call); ok {
+						if sc := c.Call.StaticCallee(); sc != nil {
+							calledStatically[funcKey(sc)] = true
+						}
+					}
+					if mc, ok := in.(*ssa.MakeClosure); ok {
+						if bf, isFn := mc.Fn.(*ssa.Function); isFn && strings.HasSuffix(bf.Name(), "$bound") && bf.Object() != nil {
+							if m := e.prog.FuncValue(bf.Object().(*types.Func)); m != nil {
+								usedAsValue[funcKey(m)] = true
+							}
+						}
+					}
+				}
+			}
+		}
+		nsinks := 0
+		for _, k := range keys {
+			fn := e.fnByKey[k]
+			viaField := ps.dynamic != "" && usedAsValue[k] && !calledStatically[k]
+			ord := 0
+			for _, b := range fn.Blocks {
+				for _, in := range b.Instrs {
+					if st, isStore := in.(*ssa.Store); isStore {
+						// schema.EntryPoint = name
+						if fa, isFA := st.Addr.(*ssa.FieldAddr); isFA {
+							if pt, isP := fa.X.Type().Underlying().(*types.Pointer); isP {
+								if nt, isN := pt.Elem().(*types.Named); isN && nt.Obj().Name() == "Schema" && nt.Obj().Pkg().Name() == "ast" &&
+									nt.Underlying().(*types.Struct).Field(fa.Field).Name() == "EntryPoint" {
+									nsinks++
+									holds := e.sinkHolds(fn, st, ssa.Value(nil), st.Val, ps.declare, false)
+									pp := e.prog.Fset.Position(st.Pos())
+									ctx.addOblig("flow", ps.pkg+":"+k[len(ps.pkg)+1:]+":entry-point-names-a-declared-object", BoolLit(holds), fmt.Sprintf("%s:%d", shortPath(pp.Filename), pp.Line))
+								}
+							}
+						}
+						continue
+					}
+					c, ok := in.(*ssa.Call)
+					if !ok {
+						continue
+					}
+					var pkgV, nameV ssa.Value
+					label := ""
+					if sc := c.Call.StaticCallee(); sc != nil && funcKey(sc) == "ast.NewRef" && len(c.Call.Args) >= 2 {
+						pkgV, nameV = c.Call.Args[0], c.Call.Args[1]
+						label = "NewRef" + itoa(ord)
+						ord++
+					} else if ps.dynamic != "" && sc == nil && !c.Call.IsInvoke() && len(c.Call.Args) >= 2 {
+						// a call through g.<dynamic>
+						if ld, isLoad := c.Call.Value.(*ssa.UnOp); isLoad {
+							if fa, isFA := ld.X.(*ssa.FieldAddr); isFA {
+								st := fa.X.Type().Underlying().(*types.Pointer).Elem().Underlying().(*types.Struct)
+								if st.Field(fa.Field).Name() == ps.dynamic {
+									pkgV, nameV = c.Call.Args[0], c.Call.Args[1]
+									label = "call-through-" + ps.dynamic
+								}
+							}
+						}
+					}
+					if label == "" {
+						continue
+					}
+					nsinks++
+					entryOK := false
+					if viaField && len(fn.Params) >= 3 {
+						// receiver, package, name: the pair handed over by the caller
+						entryOK = pkgV == ssa.Value(fn.Params[1]) && nameV == ssa.Value(fn.Params[2])
+					}
+					holds := entryOK || e.sinkHolds(fn, c, pkgV, nameV, ps.declare, false)
+					pp := e.prog.Fset.Position(c.Pos())
+					ctx.addOblig("flow", ps.pkg+":"+k[len(ps.pkg)+1:]+":"+label+":names-a-declared-object-or-another-package", BoolLit(holds), fmt.Sprintf("%s:%d", shortPath(pp.Filename), pp.Line))
+				}
+			}
+		}
+		ctx.addOblig("flow", ps.pkg+":reference-constructors-enumerated", BoolLit(nsinks > 0), "internal/"+ps.pkg+"/generator.go")
+		var ds []string
+		for d := range ps.declare {
+			ds = append(ds, d)
+		}
+		sort.Strings(ds)
+		for _, d := range ds {
+			fn := e.fnByKey[d]
+			ctx.addOblig("flow", ps.pkg+":"+d[len(ps.pkg)+1:]+":a-name-declared-without-error-has-its-object", BoolLit(fn != nil && e.declaredGetsObject(fn)), "internal/"+ps.pkg+"/generator.go")
+		}
+	}
+	res.Obligs = ctx.obligs
+	return res
+}
+
+// addsObjectNamed: c is schema.AddObject(obj) with obj an object literal whose Name field is stored from name.
+func addsObjectNamed(c *ssa.Call, name ssa.Value) bool {
+	sc := c.Call.StaticCallee()
+	if sc == nil || funcKey(sc) != "ast.(*Schema).AddObject" || len(c.Call.Args) != 2 {
+		return false
+	}
+	ld, isLoad := c.Call.Args[1].(*ssa.UnOp)
+	if !isLoad {
+		return false
+	}
+	al, isAlloc := ld.X.(*ssa.Alloc)
+	if !isAlloc {
+		return false
+	}
+	named := false
+	for _, r := range *al.Referrers() {
+		fa, isFA := r.(*ssa.FieldAddr)
+		if !isFA {
+			continue
+		}
+		st := al.Type().Underlying().(*types.Pointer).Elem().Underlying().(*types.Struct)
+		if st.Field(fa.Field).Name() != "Name" {
+			continue
+		}
+		for _, rr := range *fa.Referrers() {
+			if s, isStore := rr.(*ssa.Store); isStore {
+				named = s.Val == name
+			}
+		}
+	}
+	return named
+}
+
+// declaredGetsObject: in the declaring function (receiver, name, ...) every return of a nil error is
+// dominated by a call of (*Schema).AddObject whose object literal is named by the name parameter itself,
+// or lies behind the "already recorded" test on that same parameter (a map lookup or Objects.Has).
+func (e *Engine) declaredGetsObject(fn *ssa.Function) bool {
+	if len(fn.Params) < 2 {
+		return false
+	}
+	name := ssa.Value(fn.Params[1])
+	var addBlocks []*ssa.BasicBlock
+	for _, b := range fn.Blocks {
+		for _, in := range b.Instrs {
+			c, ok := in.(*ssa.Call)
+			if !ok {
+				continue
+			}
+			sc := c.Call.StaticCallee()
+			if sc == nil || funcKey(sc) != "ast.(*Schema).AddObject" || len(c.Call.Args) != 2 {
+				continue
+			}
+			// the argument is a load of a local object literal: its Name field must be stored from the parameter
+			ld, isLoad := c.Call.Args[1].(*ssa.UnOp)
+			if !isLoad {
+				continue
+			}
+			al, isAlloc := ld.X.(*ssa.Alloc)
+			if !isAlloc {
+				continue
+			}
+			named := false
+			for _, r := range *al.Referrers() {
+				fa, isFA := r.(*ssa.FieldAddr)
+				if !isFA {
+					continue
+				}
+				st := al.Type().Underlying().(*types.Pointer).Elem().Underlying().(*types.Struct)
+				if st.Field(fa.Field).Name() != "Name" {
+					continue
+				}
+				for _, rr := range *fa.Referrers() {
+					if s, isStore := rr.(*ssa.Store); isStore {
+						named = s.Val == name
+					}
+				}
+			}
+			if named {
+				addBlocks = append(addBlocks, b)
+			}
+		}
+	}
+	// blocks entered by the "already recorded" edge
+	var seenBlocks []*ssa.BasicBlock
+	for _, b := range fn.Blocks {
+		if len(b.Instrs) == 0 {
+			continue
+		}
+		iff, ok := b.Instrs[len(b.Instrs)-1].(*ssa.If)
+		if !ok {
+			continue
+		}
+		if isHasCall(iff.Cond, name) {
+			seenBlocks = append(seenBlocks, b.Succs[0])
+		}
+		if ex, isEx := iff.Cond.(*ssa.Extract); isEx && ex.Index == 1 {
+			if lk, isLk := ex.Tuple.(*ssa.Lookup); isLk && lk.CommaOk && lk.Index == name {
+				seenBlocks = append(seenBlocks, b.Succs[0])
+			}
+		}
+	}
+	if len(addBlocks) == 0 {
+		return false
+	}
+	for _, b := range fn.Blocks {
+		if len(b.Instrs) == 0 {
+			continue
+		}
+		ret, ok := b.Instrs[len(b.Instrs)-1].(*ssa.Return)
+		if !ok || len(ret.Results) == 0 || !isNilConst(ret.Results[len(ret.Results)-1]) {
+			continue
+		}
+		okRet := false
+		for _, a := range addBlocks {
+			if a.Dominates(b) {
+				okRet = true
+			}
+		}
+		for _, s := range seenBlocks {
+			if s.Dominates(b) && len(s.Preds) == 1 {
+				okRet = true
+			}
+		}
+		if !okRet {
+			return false
+		}
+	}
+	return true
+}
